@@ -48,9 +48,11 @@ theorem BULK_TARGET_eq : BULK_TARGET = 3064 := by decide
 structure KF where
   pl : Nat → Nat → Nat
   sl : Nat → Nat
-  /-- `false`: `push_chunk` as the code has it (a separator of the base that is shorter than the base's prefix — stored with
-  0 bits — is stored with `0 + (old prefix_len - new prefix_len)` bits under a shorter prefix, although the gauge counted
-  `separator_len - new prefix_len`: finding F20); `true`: it is stored with the length the gauge counted -/
+  /-- `false`: the code as it is.  `true`: the repair of finding F20 suggested in `notes/Q12_F20_suggested_fix.diff`
+  (`short_first_separator`): the first separator of the base, when it is shorter than the base's prefix (stored with 0
+  bits), never becomes part of a `KeepChunk` or an `Update` — `push_chunk` of the builder would store it with
+  `0 + (old prefix_len - new prefix_len)` bits under a shorter prefix although the gauge counted
+  `separator_len - new prefix_len` -/
   canon : Bool := false
   /-- `0`: the code.  Two one-line changes of the code that the theorems must exclude (kernel-checked counterexamples in
   `Props/C01_BranchUpdater.lean`): `1` — `run_worker` merges once (`if let NeedsMerge` + one more `digest`) instead of
@@ -300,6 +302,10 @@ def pushInsert (kf : KF) (st : St) (key pn : Nat) : Option St :=
   if !st.valid then none                                    -- `assert!(self.valid_gauge)`
   else some { st with gauge := st.gauge.ingestKey kf key (kf.sl key), ops := st.ops ++ [.ins key pn] }
 
+/-- `short_first_separator(base, pos)` of the suggested repair of F20 (`false` without it) -/
+def shortFirst (kf : KF) (b : Base) (pos : Nat) : Option Bool :=
+  if kf.canon && pos == 0 then (b.node.key 0).map fun k => decide (kf.sl k < b.node.pl) else some false
+
 def pushUpdate (kf : KF) (st : St) (b : Base) (pos pn : Nat) : Option St :=
   if !st.valid then none else
   match st.gauge.ingestOp kf (some b) (.upd pos pn) with
@@ -307,7 +313,11 @@ def pushUpdate (kf : KF) (st : St) (b : Base) (pos pn : Nat) : Option St :=
   | some g =>
     if b.node.pc ≤ pos ∨ g.pc.isSome then
       (replaceOp (some b) (.upd pos pn)).map fun r => { st with gauge := g, ops := st.ops ++ r }
-    else some { st with gauge := g, ops := st.ops ++ [.upd pos pn] }
+    else
+      match shortFirst kf b pos with
+      | none => none
+      | some true => (replaceOp (some b) (.upd pos pn)).map fun r => { st with gauge := g, ops := st.ops ++ r }
+      | some false => some { st with gauge := g, ops := st.ops ++ [.upd pos pn] }
 
 /-- the `for i in base_compressed_end..end { push_insert(key_value(i)) }` loop of `push_chunk` -/
 def pushTail (kf : KF) (b : Base) : (cnt pos : Nat) → St → Option St
@@ -337,12 +347,31 @@ def pushChunkHead (kf : KF) (st : St) (b : Base) (s bce : Nat) : Option St :=
     | _, _ => none
   else some st
 
-def pushChunk (kf : KF) (st : St) (b : Base) (s e : Nat) : Option St :=
-  if !st.valid then none else
+/-- the first lines of `push_chunk` with the suggested repair of F20: a short first separator is pushed as an `Insert`
+and the chunk starts behind it -/
+def pushChunkShort (kf : KF) (st : St) (b : Base) (s e : Nat) : Option (St × Nat) :=
+  if s < e then
+    match shortFirst kf b s with
+    | none => none
+    | some false => some (st, s)
+    | some true =>
+      match b.node.keyValue s with
+      | none => none
+      | some (k, pn) => (pushInsert kf st k pn).map fun st' => (st', s + 1)
+  else some (st, s)
+
+/-- `push_chunk` from the computation of `base_compressed_end` on -/
+def pushChunkFrom (kf : KF) (st : St) (b : Base) (s e : Nat) : Option St :=
   let bce := max (min e b.node.pc) s
   match pushChunkHead kf st b s bce with
   | none => none
   | some st1 => pushTail kf b (e - bce) bce st1
+
+def pushChunk (kf : KF) (st : St) (b : Base) (s e : Nat) : Option St :=
+  if !st.valid then none else
+  match pushChunkShort kf st b s e with
+  | none => none
+  | some (st0, s0) => pushChunkFrom kf st0 b s0 e
 
 /-! ## `keep_up_to`, `ingest` -/
 
@@ -558,14 +587,12 @@ def Bld.push (b : Bld) (key len pn : Nat) : Option Bld :=
   else some { b with items := b.items ++ [⟨key, pn, len⟩] }
 
 /-- the items `from .. to` of the base as `push_chunk` stores them in the new node -/
-def chunkItems (kf : KF) (b : Bld) (base : Node) (first : Nat) : List Item → Option (List Item)
+def chunkItems (b : Bld) (base : Node) (first : Nat) : List Item → Option (List Item)
   | [] => some []
   | it :: r =>
     if top it.key b.pl == top first b.pl then
-      (chunkItems kf b base first r).map fun r' =>
-        ⟨it.key, it.pn,
-          if kf.canon then kf.sl it.key - b.pl
-          else if b.pl < base.pl then it.slen + (base.pl - b.pl) else it.slen - (b.pl - base.pl)⟩ :: r'
+      (chunkItems b base first r).map fun r' =>
+        ⟨it.key, it.pn, if b.pl < base.pl then it.slen + (base.pl - b.pl) else it.slen - (b.pl - base.pl)⟩ :: r'
     else none
 
 /-- `set_node_pointer(self.index + i, new_pn)` for every `(i, new_pn)` of `updated` -/
@@ -592,7 +619,7 @@ def Bld.addChunk (b : Bld) (its : List Item) (updated : List (Nat × Nat)) : Opt
   else (applyUpdated b.n b.index updated (b.items ++ its)).map fun items' => { b with items := items' }
 
 /-- `push_chunk(base, from, to, updated)` -/
-def Bld.pushChunk (kf : KF) (b : Bld) (base : Node) (f t : Nat) (updated : List (Nat × Nat)) : Option Bld :=
+def Bld.pushChunk (b : Bld) (base : Node) (f t : Nat) (updated : List (Nat × Nat)) : Option Bld :=
   if t < f then none                                        -- `to - from`
   else if ¬ b.index + (t - f) ≤ b.pc then none               -- `assert!`
   else if base.n < t ∨ base.pc < t then none                 -- `cells()[from..to]` / an uncompressed separator of the base
@@ -602,7 +629,7 @@ def Bld.pushChunk (kf : KF) (b : Bld) (base : Node) (f t : Nat) (updated : List 
     match base.key f with
     | none => none
     | some fk =>
-      match chunkItems kf b base (b.firstKey fk) (slice base.items f t) with
+      match chunkItems b base (b.firstKey fk) (slice base.items f t) with
       | none => none
       | some its => b.addChunk its updated
 
@@ -631,7 +658,7 @@ def updsOf (s : Nat) : List Op → List (Nat × Nat)
 def applyChunk (kf : KF) (base : Base) (g : Gauge) (b : Bld) (s e : Nat) (acc : List Op) : Option Bld :=
   let nLeft := g.pcItems - b.index
   let cEnd := min (s + nLeft) e
-  match b.pushChunk kf base.node s cEnd (updsOf s acc) with
+  match b.pushChunk base.node s cEnd (updsOf s acc) with
   | none => none
   | some b1 => pushRange kf base (e - cEnd) cEnd b1
 
